@@ -265,7 +265,7 @@ func leafDocs() []Doc {
 // is exactly d. Level d>1 = for every x in level d-1: Container(x); for every
 // item type T occurring in level d-1 with members m0..mk: Collection(T, []),
 // Collection(T,[mi]) and Collection(T,[mi, m(i+1 mod k+1)]) (Total = number of
-// items, plus one Total=7 variant per type: Total is independent of Items).
+// items, plus one Total=7 and one Total=0 variant per type: Total is independent of Items).
 func DocsAt(d int) []Doc {
 	if d <= 1 {
 		return leafDocs()
@@ -288,6 +288,8 @@ func DocsAt(d int) []Doc {
 		p := "collection>" + g[0].Path
 		out = append(out, Doc{mtCollection, &lime.DocumentCollection{ItemType: t, Items: []lime.Document{}}, "collection>[]"})
 		out = append(out, Doc{mtCollection, &lime.DocumentCollection{Total: 7, ItemType: t, Items: []lime.Document{g[0].D}}, p})
+		// Total is an independent field (the size of the source collection): zero with items present is a value too
+		out = append(out, Doc{mtCollection, &lime.DocumentCollection{Total: 0, ItemType: t, Items: []lime.Document{g[0].D}}, p + "(total=0)"})
 		for _, x := range g {
 			out = append(out, Doc{mtCollection, &lime.DocumentCollection{Total: 1, ItemType: t, Items: []lime.Document{x.D}}, "collection>" + x.Path})
 		}
